@@ -1,4 +1,5 @@
 import PromModel.Suites.NhcbSuite
+import PromProofs.NhcbGroups
 /-
   C36 — classic histograms convert to custom-bucket histograms without loss.
   Theorems about the transcription of `NHCBParser`/`TempHistogram` in PromModel/Ingest/Nhcb.lean.
@@ -88,5 +89,118 @@ theorem processNHCB_idle (cfg : Cfg) (s : St) (h : s.state ≠ .collecting) : pr
 theorem meta_passthrough (cfg : Cfg) (s : St) (n t : String) :
     (step cfg s (.typ n t)).1.getLast? = some (.typ n t) ∧ (step cfg s (.help n t)).1.getLast? = some (.help n t) := by
   simp [step]
+
+/-! ### Stream level: induction over the inner entry stream
+
+  `WF cfg es` (PromProofs/NhcbRef.lean) is the explicit well-formedness predicate: walking the stream with
+  the reference grouping, (a) every group that ends converts (its series form a valid classic histogram:
+  no Convert/Validate failure — excludes C36-F3), (b) no exponential histogram arrives while a group is
+  open (excludes C36-F2), (c) with keep-classic the collated series carry no exemplars (excludes C36-F1),
+  (d) when the wrapped parser leaves `HasTs/Ts` of a reused exemplar slot untouched, every collated
+  exemplar has a timestamp (excludes C36-F4), (e) series handed on while a group is open have the group's
+  start timestamp, and the code is the repaired one (F23).  It is decidable (`Bool`-valued walk). -/
+
+/-- a text-format payload as entry stream:
+    `# TYPE h histogram`, `h_bucket{le="1"} 2`, `h_bucket{le="+Inf"} 5`, `h_count 5`, `h_sum 1.5`,
+    `# TYPE g gauge`, `g 1` -/
+def exStream : List Entry :=
+  [ .typ "68" "686973746f6772616d",
+    .series "b1" [("5f5f6e616d655f5f", "685f6275636b6574"), ("6c65", "31")] 0x4000000000000000 (some 1000) 0 [],
+    .series "b2" [("5f5f6e616d655f5f", "685f6275636b6574"), ("6c65", "2b496e66")] 0x4014000000000000 (some 1000) 0 [],
+    .series "c" [("5f5f6e616d655f5f", "685f636f756e74")] 0x4014000000000000 (some 1000) 0 [],
+    .series "s" [("5f5f6e616d655f5f", "685f73756d")] 0x3ff8000000000000 (some 1000) 0 [],
+    .typ "67" "6761756765",
+    .series "g" [("5f5f6e616d655f5f", "67")] 0x3ff0000000000000 none 0 [] ]
+
+def exCfg (keep : Bool) : Cfg := { keep := keep, parseST := true, partialEx := true, fixed := true }
+
+/-- a non-trivial stream is well-formed (with and without keep-classic) … -/
+example : WF (exCfg false) exStream ∧ WF (exCfg true) exStream := by decide +kernel
+
+/-- … and is converted to one histogram with bound 1.0, buckets 2 and 3, count 5, sum 1.5, timestamp 1000 -/
+example : transform (exCfg false) exStream =
+    [ .typ "68" "686973746f6772616d",
+      .nhcb "68" [("5f5f6e616d655f5f", "68")] (some 1000) 0 [] (.int 5 0x3ff8000000000000 [0x3ff0000000000000] [2, 3]),
+      .typ "67" "6761756765",
+      .series "g" [("5f5f6e616d655f5f", "67")] 0x3ff0000000000000 none 0 [] ] := by decide +kernel
+
+/-- **Refinement** (per inner entry): on a well-formed stream the wrapped parser returns, while each inner
+    entry is the last one pulled, exactly what the reference grouping prescribes — the converted histogram
+    of the group ending there, then the entry itself unless it was collated.  Proof: induction over the
+    stream with the invariant `Sim` on the parser state (PromProofs/NhcbSim.lean). -/
+theorem stream_refines_reference (cfg : Cfg) (es : List Entry) (h : WF cfg es) :
+    (run cfg {} es).map (·.map (Out.norm cfg)) = (refRun cfg {} es).map (·.map (Out.norm cfg)) :=
+  run_sim cfg h.1 es {} {} (sim_init cfg) h.2
+
+theorem transform_refines_reference (cfg : Cfg) (es : List Entry) (h : WF cfg es) :
+    (transform cfg es).map (Out.norm cfg) = (refTransform cfg es).map (Out.norm cfg) := by
+  unfold transform refTransform
+  rw [List.map_flatten, List.map_flatten, stream_refines_reference cfg es h]
+
+/-- `nhcb_groups`: for every well-formed inner entry stream the output consists of exactly one converted
+    histogram per group (`groups`: maximal runs of classic-histogram series with the same base name and
+    labels minus `le`), in the order of the groups, and of the entries handed on (`passed`: everything
+    except the collated classic series, which are kept only with keep-classic). -/
+theorem nhcb_groups (cfg : Cfg) (es : List Entry) (h : WF cfg es) :
+    ((transform cfg es).filter Out.isNhcb).map (Out.norm cfg) = ((groups cfg es).flatMap Grp.out).map (Out.norm cfg) ∧
+    (∀ g ∈ groups cfg es, ∃ c, g.conv = some c ∧ g.out = [.nhcb (metricString g.base) g.base g.ts g.st g.exs c]) ∧
+    ((transform cfg es).filter (fun o => !o.isNhcb)).map (Out.norm cfg) = (passed cfg es).map (Out.norm cfg) := by
+  have ht := transform_refines_reference cfg es h
+  refine ⟨?_, ?_, ?_⟩
+  · rw [← filter_nhcb_norm, ht, filter_nhcb_norm]
+    unfold refTransform groups
+    rw [refRun_nhcb]
+  · intro g hg
+    have hc := refGroups_conv cfg es {} h.2 g hg
+    obtain ⟨c, hc⟩ := Option.isSome_iff_exists.mp hc
+    exact ⟨c, hc, by simp [Grp.out, hc]⟩
+  · rw [← filter_not_nhcb_norm, ht, filter_not_nhcb_norm]
+    unfold refTransform passed
+    rw [refRun_passed]
+
+/-- the number of converted histograms is the number of groups -/
+theorem nhcb_count (cfg : Cfg) (es : List Entry) (h : WF cfg es) :
+    ((transform cfg es).filter Out.isNhcb).length = (groups cfg es).length := by
+  have h1 := congrArg List.length (nhcb_groups cfg es h).1
+  simp only [List.length_map] at h1
+  rw [h1, List.length_flatMap]
+  have : ∀ gs : List Grp, (∀ g ∈ gs, g.out.length = 1) → (gs.map (fun g => g.out.length)).sum = gs.length := by
+    intro gs; induction gs with
+    | nil => intro _; rfl
+    | cons g gs ih =>
+      intro hh
+      simp only [List.map_cons, List.sum_cons, List.length_cons]
+      rw [hh g (by simp), ih (fun x hx => hh x (by simp [hx]))]; omega
+  apply this
+  intro g hg
+  obtain ⟨c, _, ho⟩ := (nhcb_groups cfg es h).2.1 g hg
+  rw [ho]; rfl
+
+/-- `keep_classic_superset`: with keep-classic, on a well-formed stream, (1) the stream is also well-formed
+    for the parser without keep-classic and the converted histograms are the same, (2) everything else in
+    the output is the inner stream itself (up to its first error), every entry exactly as the inner parser
+    delivers it — in particular all classic series. -/
+theorem keep_classic_superset (cfg : Cfg) (es : List Entry) (hk : cfg.keep = true) (h : WF cfg es) :
+    WF { cfg with keep := false } es ∧
+    ((transform cfg es).filter Out.isNhcb).map (Out.norm cfg) =
+      ((transform { cfg with keep := false } es).filter Out.isNhcb).map (Out.norm cfg) ∧
+    ((transform cfg es).filter (fun o => !o.isNhcb)).map (Out.norm cfg) =
+      ((upToErr es).map Entry.toOut).map (Out.norm cfg) := by
+  have h0 : WF { cfg with keep := false } es := ⟨h.1, wfGo_keep_false cfg es {} h.2⟩
+  refine ⟨h0, ?_, ?_⟩
+  · rw [(nhcb_groups cfg es h).1]
+    have := (nhcb_groups _ es h0).1
+    have hn : Out.norm { cfg with keep := false } = Out.norm cfg := by
+      funext o; cases o <;> rfl
+    rw [hn] at this
+    rw [this]
+    unfold groups
+    rw [refGroups_keep cfg false]
+  · rw [(nhcb_groups cfg es h).2.2]
+    unfold passed
+    rw [refPassed_keep cfg hk]
+
+example : ((transform (exCfg true) exStream).filter (fun o => !o.isNhcb)) = exStream.map Entry.toOut := by
+  decide +kernel
 
 end Prom.C36
